@@ -3331,6 +3331,13 @@ class quantized_hswish(quantized_bits):  # pylint: disable=invalid-name
       flags.append(
           "use_stochastic_rounding=" + str(int(self.use_stochastic_rounding))
       )
+    if self.scale_axis is not None:
+      flags.append("scale_axis=" + str(self.scale_axis))
+    qnoise_factor = (
+        self.qnoise_factor.numpy() if isinstance(
+            self.qnoise_factor, tf.Variable) else self.qnoise_factor)
+    if qnoise_factor != 1.0:
+      flags.append("qnoise_factor=" + str(float(qnoise_factor)))
     return "quantized_hswish(" + ",".join(flags) + ")"
 
   def __call__(self, x):
